@@ -54,9 +54,10 @@ KindsFor(p) == IF p.c = <<>> THEN {"extend", "missing"} ELSE Kinds
 \* A corruption set: records [store, c, kind], at most one kind per physical part.
 Damage(corr, p) == IF \E x \in corr : x.store = p.store /\ x.c = p.c
                    THEN (CHOOSE x \in corr : x.store = p.store /\ x.c = p.c).kind ELSE "none"
-CorrSets(St, stack) ==
-  UNION {{ {[store |-> p.store, c |-> p.c, kind |-> f[p]] : p \in Q} : f \in {g \in [Q -> Kinds] : \A p \in Q : g[p] \in KindsFor(p)} }
+CorrSetsK(St, stack, kinds) ==
+  UNION {{ {[store |-> p.store, c |-> p.c, kind |-> f[p]] : p \in Q} : f \in {g \in [Q -> kinds] : \A p \in Q : g[p] \in KindsFor(p)} }
          : Q \in SUBSET AllParts(St, stack)}
+CorrSets(St, stack) == CorrSetsK(St, stack, Kinds)
 
 \* ------------------------------------------------------------ the objects covered
 \* ListBuckets x ListAllObjectsOfBucket: current, non-delete-marker versions
@@ -127,14 +128,45 @@ C39Holds(St, stack, corr, del, a) ==
           ELSE a.s = St
 
 \* ------------------------------------------------------------ design-level check
-\* On every reachable storage state (PithosMC's transition system), for every corruption set
-\* and both deletion modes, the validator of the intended design satisfies C39.
+\* A reduced transition system over Pithos.tla (one bucket, the calls that create the part
+\* structures the property speaks about: single part, appended, multipart, copied = shared
+\* parts, identical content = deduplicated parts, several versions, delete markers, a pending
+\* upload).  On every reachable storage state, for every corruption set over its physical
+\* parts and both deletion modes, the validator of the intended design satisfies C39.
+CONSTANTS MCKinds,        \* corruption kinds enumerated by the design check
+          MCStacks        \* stacks enumerated by the design check
+ICalls(St) ==
+  [op : {"PutVersioning"}, b : {"b1"}, status : {"Enabled"}]
+  \cup [op : {"PutObject"}, b : {"b1"}, k : Keys, blob : Blobs, ctype : {None}, meta : {None}, tags : {None},
+        class : Classes, cond : {"none"}]
+  \cup [op : {"AppendObject"}, b : {"b1"}, k : Keys, blob : Blobs, off : {"none"}]
+  \cup [op : {"CopyObject"}, sb : {"b1"}, sk : Keys, svid : {-1}, b : {"b1"}, k : Keys, mdir : {"COPY"}, tdir : {"COPY"},
+        ctype : {None}, meta : {None}, tags : {None}, class : Classes]
+  \cup [op : {"DeleteObject"}, b : {"b1"}, k : Keys, vid : {-1}, cond : {"none"}]
+  \cup [op : {"CreateUpload"}, b : {"b1"}, k : {"k2"}, ctype : {None}, meta : {None}, tags : {None}, class : Classes]
+  \cup [op : {"UploadPart"}, b : {"b1"}, k : {"k2"}, u : {1}, n : 1..MaxParts, blob : Blobs]
+  \cup [op : {"CompleteUpload"}, b : {"b1"}, k : {"k2"}, u : {1}, manifest : {"all"}, cond : {"none"}]
+IInit == /\ S = Apply(InitState(Buckets, Keys, Deviations), [op |-> "CreateBucket", b |-> "b1"]).s
+         /\ res = NoRes /\ hist = <<>>
+INext == /\ S.clock < MaxClock
+         /\ \E c \in ICalls(S) : Apply(S, c).r.err = "" /\ Step(c)
+ISpec == IInit /\ [][INext]_vars
+
+MCCorrSets(St, stack) == CorrSetsK(St, stack, MCKinds)
 DesignHolds ==
-  \A stack \in Stacks : \A corr \in CorrSets(S, stack) : \A del \in BOOLEAN :
+  \A stack \in MCStacks : \A corr \in MCCorrSets(S, stack) : \A del \in BOOLEAN :
      C39Holds(S, stack, corr, del, ValidateAll({}, S, stack, corr, del))
-\* the same with this module's deviations (must FAIL when IDeviations # {}: used to show that
-\* the deviations are observable within the bounds)
+\* the same with this module's deviations (must FAIL when IDeviations # {}: shows that the
+\* deviations are observable within the bounds)
 CodeHolds ==
-  \A stack \in Stacks : \A corr \in CorrSets(S, stack) : \A del \in BOOLEAN :
+  \A stack \in MCStacks : \A corr \in MCCorrSets(S, stack) : \A del \in BOOLEAN :
      C39Holds(S, stack, corr, del, ValidateAll(IDeviations, S, stack, corr, del))
+\* the model state without the clock (the design check does not depend on time stamps)
+IView == [bver |-> S.bver, ups |-> S.ups,
+          objs |-> [b \in Buckets |-> [k \in Keys |->
+                     [i \in 1..Len(S.objs[b][k]) |-> [vid |-> S.objs[b][k][i].vid, dm |-> S.objs[b][k][i].dm,
+                        latest |-> S.objs[b][k][i].latest, parts |-> S.objs[b][k][i].parts,
+                        single |-> S.objs[b][k][i].single, class |-> S.objs[b][k][i].class,
+                        seq1 |-> S.objs[b][k][i].seq1]]]],
+          clock |-> S.clock]
 =============================================================================
